@@ -2,6 +2,7 @@ package stick
 
 import (
 	"fmt"
+	"math"
 	"reflect"
 	"strconv"
 
@@ -212,7 +213,11 @@ func CoerceString(v Value) string {
 		return vc
 	case Stringer:
 		return vc.String()
-	case float32, float64, int, int8, int16, int32, int64, uint, uint8, uint16, uint32, uint64:
+	case float32:
+		return formatFloat(float64(vc), vc)
+	case float64:
+		return formatFloat(vc, vc)
+	case int, int8, int16, int32, int64, uint, uint8, uint16, uint32, uint64:
 		return fmt.Sprintf("%v", vc)
 	case Number:
 		return fmt.Sprintf("%v", vc.Number())
@@ -227,6 +232,17 @@ func CoerceString(v Value) string {
 
 	}
 	return ""
+}
+
+// formatFloat formats the floating point value v, whose float64 value is f.
+// Integral values that every integer type could also hold exactly are written
+// like integers ("1000000", not "1e+06"), so that a number prints the same
+// whichever Go type carries it.
+func formatFloat(f float64, v Value) string {
+	if f == math.Trunc(f) && math.Abs(f) <= 1<<53 {
+		return strconv.FormatFloat(f, 'f', -1, 64)
+	}
+	return fmt.Sprintf("%v", v)
 }
 
 // GetAttr attempts to access the given value and return the specified attribute.
